@@ -8,7 +8,7 @@
 """Subpackage for running Observation mode with Dask enabled."""
 
 from collections.abc import Hashable, Mapping, Sequence
-from copy import deepcopy
+from copy import copy, deepcopy
 from dataclasses import dataclass
 from tempfile import TemporaryDirectory
 from typing import TYPE_CHECKING, Optional
@@ -283,6 +283,11 @@ def run_pipelines_with_dask(
     """Run observation pipelines using Dask for parallelized computation."""
     # Late import to speedup start-up time
     import xarray as xr
+
+    # The (lazy) runs of this observation keep writing into the output folder created
+    # for this observation, also when 'outputs' gets a new folder for a later observation
+    if outputs:
+        outputs = copy(outputs)
 
     # Generate parameters for the pipelines (as a DataArray)
     if isinstance(parameter_mode, SequentialMode):
